@@ -98,6 +98,7 @@ and mexp = function
   | L [A "MProd"; al; m1; m2] -> MProd (z al, mexp m1, mexp m2)
   | L [A "MRepeat"; cm; e; k] -> MRepeat (b cm, vexp e, n k)
   | L [A "MConcat"; rt; m1; m2] -> MConcat (b rt, mexp m1, mexp m2)
+  | L [A "MTri"; up; un; m] -> MTri (b up, b un, mexp m)
   | _ -> failwith "mexp"
 
 let sexp = function
@@ -150,6 +151,23 @@ let dump decls s =
 let () =
   let ic = open_in Sys.argv.(1) in
   let decls = ref [] and st = ref empty_env and k = ref 0 in
+  let pending = ref [] in
+  (* quiet element sets `Q SSetV x i c` / `Q SSetM A i j c` establish the INITIAL store of the big-shape shards (thousands
+     of cells): they are written straight into the tables that `normalise` builds (same effect as exec of SSetV / SSetM,
+     which is wr; going through 10^4 nested closures of the extracted wr would take minutes) *)
+  let flush_pending () =
+    if !pending <> [] then begin
+      let l = List.rev !pending in pending := [];
+      let s0 = normalise !decls !st in
+      let vo = Hashtbl.create 1024 and mo = Hashtbl.create 1024 in
+      List.iter (function
+        | SSetV (x, i, c) -> Hashtbl.replace vo (int_of_nat x, int_of_nat i) c
+        | SSetM (x, i, j, c) -> Hashtbl.replace mo (int_of_nat x, int_of_nat i, int_of_nat j) c
+        | _ -> ()) l;
+      st := normalise !decls
+        { ev = (fun x i -> match Hashtbl.find_opt vo (int_of_nat x, int_of_nat i) with Some c -> c | None -> s0.ev x i);
+          em = (fun x i j -> match Hashtbl.find_opt mo (int_of_nat x, int_of_nat i, int_of_nat j) with Some c -> c | None -> s0.em x i j) }
+    end in
   (try
     while true do
       let l = input_line ic in
@@ -158,7 +176,13 @@ let () =
         | ["D"; "v"; x; sz] -> decls := !decls @ [DV (int_of_string x, int_of_string sz)]
         | ["D"; "m"; x; r; c] -> decls := !decls @ [DM (int_of_string x, int_of_string r, int_of_string c)]
         | _ -> failwith ("bad declaration " ^ l)
+      end else if String.length l > 2 && l.[0] = 'Q' then begin
+        (match List.filter (fun x -> x <> "") (String.split_on_char ' ' l) with
+         | ["Q"; "SSetV"; x; i; c] -> pending := SSetV (nat_of_int (int_of_string x), nat_of_int (int_of_string i), z_of_int (int_of_string c)) :: !pending
+         | ["Q"; "SSetM"; x; i; j; c] -> pending := SSetM (nat_of_int (int_of_string x), nat_of_int (int_of_string i), nat_of_int (int_of_string j), z_of_int (int_of_string c)) :: !pending
+         | _ -> failwith ("bad quiet statement " ^ l))
       end else if String.length l > 2 && l.[0] = 'S' then begin
+        flush_pending ();
         let s = stmt (parse (tokenize (String.sub l 1 (String.length l - 1)))) in
         if not (stmt_ok s) then Printf.printf "%d REJECT r=- | %s\n" !k (dump !decls !st)
         else begin
